@@ -1,0 +1,15 @@
+//go:build verif
+
+package stream
+
+// Accessors for the verification harness (/verif, property C18). Compiled only with
+// -tags verif; called by the harness scheduler while the stream's goroutines are parked.
+
+// VerifSinkCounts returns the number of registered async and sync sinks without locking.
+func (s *Stream) VerifSinkCounts() (int, int) { return len(s.sinks), len(s.syncSinks) }
+
+// VerifStopped reports the stopped flag.
+func (s *Stream) VerifStopped() bool { return s.stopped == 1 }
+
+// VerifSinkPoolLen returns the number of queued sink tasks.
+func (s *Stream) VerifSinkPoolLen() int { return len(s.sinkWorkerPool) }
